@@ -433,8 +433,8 @@ class Dict(dict, base.Symbolic, pg_typing.CustomTyping):
 
   def seal(self, sealed: bool = True) -> 'Dict':
     """Seals or unseals current object from further modification."""
-    if self.is_sealed == sealed:
-      return self
+    # NOTE: descendants are always visited: a child may be in another state than
+    # its parent (e.g. it was sealed before it was inserted).
     for v in self.sym_values():
       if isinstance(v, base.Symbolic):
         v.seal(sealed)
